@@ -134,7 +134,6 @@ func evaluate(t vlib.TB, sub string, s *edwards.Scheme, kind string, pk, msg, si
 	vlib.Eval(sub)
 	vd := s.Verify(pk, msg, sig, ctx)
 	exp := vd.Expect()
-	vlib.Class(sub, "kind="+kind)
 	vlib.Class(sub, "expect="+exp)
 	vlib.Class(sub, "kind="+kind+"/"+exp+"/"+reasonClass(vd))
 	var r verifyResult
@@ -186,6 +185,21 @@ func evaluate(t vlib.TB, sub string, s *edwards.Scheme, kind string, pk, msg, si
 		vlib.NonTrivial(sub, "", []byte(kind), pk, msg, sig, ctx)
 		vlib.Sample(sub, "kind="+kind+"/"+exp, fmt.Sprintf("%s: pk=%s msg=%s ctx=%s sig=%s → %s (%s), circl=%v", kind, vlib.Hex(pk), vlib.Hex(msg), vlib.Hex(ctx), vlib.Hex(sig), exp, vd.Reason(), r.ok))
 	}
+}
+
+// ---------------------------------------------------------------------------
+// uniform choice
+
+// pick draws an index in [0,n) uniformly (rapid's own small-integer generators
+// are biased towards small values, which would starve the later classes).
+func pick(t *rapid.T, n int, label string) int {
+	var b [8]byte
+	vlib.ExpandInto(b[:], rapid.Uint64().Draw(t, label))
+	v := uint64(0)
+	for _, x := range b {
+		v = v<<8 | uint64(x)
+	}
+	return int(v % uint64(n))
 }
 
 // ---------------------------------------------------------------------------
@@ -377,7 +391,7 @@ var sKinds = []string{"S+L", "L-1", "L", "2^k", "all-ones", "top-octet", "S+2L",
 func alterS(t *rapid.T, c *edwards.Curve, sig []byte) ([]byte, string) {
 	n := c.EncLen
 	S := vlib.FromLE(sig[n:])
-	kind := rapid.SampledFrom(sKinds).Draw(t, "skind")
+	kind := sKinds[pick(t, len(sKinds), "skind")]
 	width := 8 * n
 	var v *big.Int
 	switch kind {
@@ -475,7 +489,7 @@ func verifyCase(t *rapid.T, s *edwards.Scheme) {
 	n := c.EncLen
 	sub := "verify/" + s.Name
 	T := torsion(c)
-	kind := rapid.SampledFrom(verifyKinds).Draw(t, "kind")
+	kind := verifyKinds[pick(t, len(verifyKinds), "kind")]
 	km := pool(c)[rapid.IntRange(0, 4).Draw(t, "key")]
 	msg := vlib.Msg(t, "msg")
 	ctx := drawCtx(t, s, "ctx")
@@ -484,11 +498,16 @@ func verifyCase(t *rapid.T, s *edwards.Scheme) {
 	case "honest":
 		evaluate(t, sub, s, kind, km.pk, msg, honestSig(s, km, msg, ctx), ctx)
 	case "alter-S":
-		sig, k := alterS(t, c, honestSig(s, km, msg, ctx))
+		h := honestSig(s, km, msg, ctx)
+		sig, k := alterS(t, c, h)
+		if bytes.Equal(sig, h) {
+			evaluate(t, sub, s, "honest", km.pk, msg, sig, ctx)
+			return
+		}
 		evaluate(t, sub, s, kind+"/"+k, km.pk, msg, sig, ctx)
 	case "alter-S-of-forged":
 		// A and R of small order, S = 0: the equation holds for S = L, 2L too
-		sp := specials(c)[rapid.IntRange(0, len(specials(c))-1).Draw(t, "special")]
+		sp := specials(c)[pick(t, len(specials(c)), "special")]
 		if !sp.canon {
 			sp = specials(c)[0]
 		}
@@ -595,7 +614,7 @@ func verifyCase(t *rapid.T, s *edwards.Scheme) {
 		sig := s.SignCore(km.a, km.prefix, km.pk, raw, s.PH(msg))
 		evaluate(t, sub, s, kind, km.pk, msg, sig, long)
 	case "small-order-A":
-		sp := specials(c)[rapid.IntRange(0, len(specials(c))-1).Draw(t, "special")]
+		sp := specials(c)[pick(t, len(specials(c)), "special")]
 		r := drawScalar(t, c, "r")
 		sig, m2, ok := forge(forgeIn{s: s, aenc: sp.enc, a: big.NewInt(0), ia: sp.idx, r: r, ir: 0, dom: dom, msg: msg})
 		if !ok {
@@ -603,7 +622,7 @@ func verifyCase(t *rapid.T, s *edwards.Scheme) {
 		}
 		evaluate(t, sub, s, kind+"/"+sp.label, sp.enc, m2, sig, ctx)
 	case "small-order-A-and-R":
-		sp := specials(c)[rapid.IntRange(0, len(specials(c))-1).Draw(t, "special")]
+		sp := specials(c)[pick(t, len(specials(c)), "special")]
 		sig, m2, ok := forge(forgeIn{s: s, aenc: sp.enc, a: big.NewInt(0), ia: sp.idx, r: big.NewInt(0), ir: -1, dom: dom, msg: msg})
 		if !ok {
 			vlib.Class(sub, "forge-gave-up")
@@ -617,7 +636,7 @@ func verifyCase(t *rapid.T, s *edwards.Scheme) {
 				can = append(can, sp)
 			}
 		}
-		sp := can[rapid.IntRange(0, len(can)-1).Draw(t, "special")]
+		sp := can[pick(t, len(can), "special")]
 		sig, m2, ok := forge(forgeIn{s: s, aenc: sp.enc, a: big.NewInt(0), ia: sp.idx, r: big.NewInt(0), ir: -1, rAlias: true, dom: dom, msg: msg})
 		if !ok {
 			vlib.Class(sub, "forge-gave-up")
@@ -626,7 +645,7 @@ func verifyCase(t *rapid.T, s *edwards.Scheme) {
 	case "junk-lastbyte-pk":
 		if n != 57 {
 			// Ed25519 has no spare bits; use the y+p alias class instead
-			sp := specials(c)[rapid.IntRange(0, len(specials(c))-1).Draw(t, "special")]
+			sp := specials(c)[pick(t, len(specials(c)), "special")]
 			r := drawScalar(t, c, "r")
 			sig, m2, _ := forge(forgeIn{s: s, aenc: sp.enc, a: big.NewInt(0), ia: sp.idx, r: r, ir: 0, dom: dom, msg: msg})
 			evaluate(t, sub, s, "small-order-A/"+sp.label, sp.enc, m2, sig, ctx)
